@@ -120,7 +120,8 @@ REPLAYS = {
 # BOUNDED stand-ins (never counted as proved): real-crate tests that are run when the named function cannot be brought within the
 # verifier's reach on the tree under test (its text left the dialect). function (as named in //@BODY) -> (tests, properties the stand-in speaks for, stated bound)
 BOUNDED = {
-    "SchedulerCore::reschedule_queue": (["b_waiters"], ["C04"], "blocked sync callers k=1..4, pool size 0 and a saturated pool of 1 (8 cases): every caller must return after the runner hands the queue back"),
+    "SchedulerCore::reschedule_queue": [(["b_waiters"], ["C04"], "blocked sync callers k=1..4, pool size 0 and a saturated pool of 1 (8 cases): every caller must return after the runner hands the queue back"),
+                                        (["b_resched_poll"], ["C03", "C06", "C07"], "pool sizes 1..3, a queue left WaitingForPoll by a polling future that is then {dropped, kept but never polled again} (6 cases): when the parked job is woken a pool thread must run it")],
     "SchedulerCore::claim_pending_queue": (["b_claim"], ["C03", "C10"], "1..3 other queues Pending in the schedule, pool of 1 busy thread (3 cases): after a blocked sync caller claims its queue the other queues must still be served"),
     "SchedulerFuture::sync": (["b_future_sync"], ["C07"], "calling contexts {plain thread, pool job, job run by a polling task with pool 0, same with a saturated pool of 1} x {operation pending, operation finished} (8 cases): .sync() returns Ok(value)"),
     "SchedulerCore::remove_finished_threads": [(["b_reap"], ["C10", "C15"], "pool of 4 threads, every non-empty proper subset killed by panicking jobs (14 cases): a job on a fresh object must run while the live threads stay blocked"),
